@@ -26,3 +26,9 @@ package pod
 //@ # reConfig only moves an unbound record to Binding (same pod instance) or re-labels it; it is entered from Unbind
 //@ func ReconcilePod.reConfig
 //@   requires prePodENI != nil && prePodENI.Status.Phase == "Unbind"
+
+//@ # pod deletion: a fixed-IP record goes Bind -> Detaching, any other record -> Deleting
+//@ guard call SubResourceWriter.Update#1 in podDelete: prePodENICopy.Status.Phase == "Detaching" && prePodENI.Status.Phase != "Deleting" && prePodENI.Status.Phase != "Detaching"
+//@ # ... and Detaching is entered from Bind (see /verif/known_findings.json: fixed-IP records in Initial/Binding/Unbind are also sent to Detaching)
+//@ guard call SubResourceWriter.Update#1 in podDelete: prePodENI.Status.Phase == "Bind"
+//@ guard call SubResourceWriter.Update#2 in podDelete: phaseStep(prePodENI.Status.Phase, update.Status.Phase)
